@@ -32,27 +32,43 @@ macro_rules! uniform_harnesses {
                     None => assert!(s >= range, "C03: in-support symbol reported as impossible by UniformModel"),
                     Some((cum, p)) => {
                         assert!(s < range, "C09: UniformModel accepted a symbol outside its support");
-                        let (cum, p) = (cum as u64, p.get() as u64);
-                        assert!(p >= 1 && cum + p <= TOTAL && p < TOTAL, "C03: UniformModel entry not a proper sub-interval");
-                        if s == 0 { assert!(cum == 0, "C03: first symbol must start at 0"); }
-                        if s + 1 == range { assert!(cum + p == TOTAL, "C03: last symbol must end at 2^P"); }
-                        else {
-                            let (c2, _) = m.left_cumulative_and_probability(s + 1).unwrap();
-                            assert!(c2 as u64 == cum + p, "C03: UniformModel intervals not consecutive");
+                        if s < range {
+                            let (cum, p) = (cum as u64, p.get() as u64);
+                            assert!(p >= 1 && cum + p <= TOTAL && p < TOTAL, "C03: UniformModel entry not a proper sub-interval");
+                            if s == 0 { assert!(cum == 0, "C03: first symbol must start at 0"); }
+                            if s + 1 == range { assert!(cum + p == TOTAL, "C03: last symbol must end at 2^P"); }
+                            else {
+                                let (c2, _) = m.left_cumulative_and_probability(s + 1).unwrap();
+                                assert!(c2 as u64 == cum + p, "C03: UniformModel intervals not consecutive");
+                            }
                         }
-                        // C05: symbol table row == encoder view
-                        let row = m.symbol_table().nth(s);
-                        assert!(row == Some((s, cum as Pr, m.left_cumulative_and_probability(s).unwrap().1)), "C05: UniformModel symbol_table row differs from the encoder view");
                     }
                 }
-                assert!(m.symbol_table().nth(range).is_none(), "C05: UniformModel symbol_table has extra rows");
                 let q: Pr = any();
                 assume((q as u64) < TOTAL);
                 let (sq, cq, pq) = m.quantile_function(q);
                 assert!((cq as u64) <= q as u64 && (q as u64) < cq as u64 + pq.get() as u64, "C03: quantile not inside the returned interval (UniformModel)");
                 assert!(m.left_cumulative_and_probability(sq) == Some((cq, pq)), "C03: UniformModel quantile_function disagrees with the encoder view");
-                cover!(s + 1 == range, "last symbol");
+                cover!(s < range && s + 1 == range, "last symbol");
                 cover!(s > u32::MAX as usize, "symbol beyond 32 bits");
+            }
+
+            /// C05 (bounded: range <= 4): every row of the symbol table is the encoder view of that symbol.
+            #[cfg_attr(kani, kani::proof)]
+            #[cfg_attr(kani, kani::unwind(7))]
+            pub fn table_small() {
+                let range: usize = any();
+                assume(range >= 2 && range <= 4 && (range as u64) <= TOTAL);
+                let m = UniformModel::<Pr, P>::new(range);
+                let mut it = m.symbol_table();
+                let mut i = 0usize;
+                while i < range {
+                    let row = it.next();
+                    let (c, p) = m.left_cumulative_and_probability(i).unwrap();
+                    assert!(row == Some((i, c, p)), "C05: UniformModel symbol_table row differs from the encoder view");
+                    i += 1;
+                }
+                assert!(it.next().is_none(), "C05: UniformModel symbol_table has extra rows");
             }
 
             /// C19: ranges 0, 1 and > 2^P are refused (panic), never turned into a model.
@@ -82,71 +98,82 @@ fn table_valid(p: &[u8; 3], len: usize, infer: bool, prec: u32) -> bool {
     if infer { len + 1 >= 2 && sum < total } else { len >= 2 && sum == total }
 }
 
-/// contract of every model built from a table: tiling, no zero, no probability one, rejection
-/// outside the support, quantile_function == encoder view.
-macro_rules! check_contiguous_model {
-    ($m:expr, $n:expr, $prec:expr, $tag:literal) => {{
-        let m = &$m; let n: usize = $n; let total: u32 = 1u32 << $prec;
-        assert!(n >= 2, concat!("C19/C03: ", $tag, " built a model with fewer than two symbols"));
-        let s: usize = any();
-        match m.left_cumulative_and_probability(s) {
-            None => assert!(s >= n, concat!("C03: ", $tag, " reports an in-support symbol as impossible")),
-            Some((cum, p)) => {
-                assert!(s < n, concat!("C09: ", $tag, " accepted a symbol outside its support"));
+/// contract of every model built by a table constructor: tiling, no zero, no probability one,
+/// rejection outside the support, quantile_function == encoder view.
+pub fn check_contiguous_model<M, const PREC: usize>(m: &M, n: usize)
+where M: EncoderModel<PREC, Symbol = usize, Probability = u8> + DecoderModel<PREC, Symbol = usize, Probability = u8> {
+    let total: u32 = 1u32 << PREC;
+    assert!(n >= 2, "C19/C03: constructor built a model with fewer than two symbols");
+    let s: usize = any();
+    match m.left_cumulative_and_probability(s) {
+        None => assert!(s >= n, "C03: model reports an in-support symbol as impossible"),
+        Some((cum, p)) => {
+            assert!(s < n, "C09: model accepted a symbol outside its support");
+            if s < n {
                 let (cum, p) = (cum as u32, p.get() as u32);
-                assert!(p >= 1 && cum + p <= total && p < total, concat!("C03: ", $tag, " entry is not a proper sub-interval"));
-                if s == 0 { assert!(cum == 0, concat!("C03: ", $tag, " first symbol must start at 0")); }
-                if s + 1 == n { assert!(cum + p == total, concat!("C03: ", $tag, " last symbol must end at 2^P")); }
-                else { assert!(m.left_cumulative_and_probability(s + 1).unwrap().0 as u32 == cum + p, concat!("C03: ", $tag, " intervals not consecutive")); }
+                assert!(p >= 1 && cum + p <= total && p < total, "C03: model entry is not a proper sub-interval of [0,2^P)");
+                if s == 0 { assert!(cum == 0, "C03: first symbol must start at 0"); }
+                if s + 1 == n { assert!(cum + p == total, "C03: last symbol must end at 2^P"); }
+                else { assert!(m.left_cumulative_and_probability(s + 1).unwrap().0 as u32 == cum + p, "C03: model intervals not consecutive"); }
             }
         }
-        let q: u8 = any(); assume((q as u32) < total);
-        let (sq, cq, pq) = m.quantile_function(q);
-        assert!(cq <= q && (q as u32) < cq as u32 + pq.get() as u32, concat!("C03: ", $tag, " quantile not inside the returned interval"));
-        assert!(m.left_cumulative_and_probability(sq) == Some((cq, pq)), concat!("C03: ", $tag, " quantile_function disagrees with the encoder view"));
-    }};
+    }
+    let q: u8 = any(); assume((q as u32) < total);
+    let (sq, cq, pq) = m.quantile_function(q);
+    assert!(cq <= q && (q as u32) < cq as u32 + pq.get() as u32, "C03: quantile not inside the interval returned by quantile_function");
+    assert!(m.left_cumulative_and_probability(sq) == Some((cq, pq)), "C03: quantile_function disagrees with the encoder view");
 }
 
-macro_rules! fixed_table_harnesses {
-    ($modname:ident, $P:expr) => {
-        pub mod $modname {
-            use super::*;
-            const P: usize = $P;
+macro_rules! fixed_table_harness {
+    ($name:ident, $P:expr, $LEN:expr, $INFER:expr) => {
+        /// C19 + C03 + C09 + C05: from_nonzero_fixed_point_probabilities over ALL tables of $LEN u8
+        /// entries (infer_last_probability = $INFER): Ok <=> the table is valid; Ok models satisfy
+        /// the model contract; symbol table rows and views equal the encoder view.
+        #[cfg_attr(kani, kani::proof)]
+        #[cfg_attr(kani, kani::unwind(6))]
+        pub fn $name() {
+            const P: usize = $P; const LEN: usize = $LEN; const INFER: bool = $INFER;
             type M = ContiguousCategoricalEntropyModel<u8, Vec<u8>, P>;
-
-            /// C19 + C03 + C09: from_nonzero_fixed_point_probabilities over ALL tables of <= 3 u8 entries,
-            /// with and without inferring the last probability: Ok <=> the table is valid; Ok models
-            /// satisfy the model contract.
-            #[cfg_attr(kani, kani::proof)]
-            #[cfg_attr(kani, kani::unwind(6))]
-            pub fn contiguous() {
-                let p = any_arr::<u8, 3>(); let len: usize = any(); let infer: bool = any();
-                assume(len <= 3);
-                let valid = table_valid(&p, len, infer, P as u32);
-                match M::from_nonzero_fixed_point_probabilities(&p[..len], infer) {
-                    Err(()) => assert!(!valid, "C19: valid fixed-point table refused (inferring the last probability must work at every precision)"),
-                    Ok(m) => {
-                        assert!(valid, "C19: invalid fixed-point table accepted");
-                        let n = len + infer as usize;
-                        assert!(m.support_size() == n, "C03: support size differs from the number of table entries");
-                        check_contiguous_model!(m, n, P, "ContiguousCategoricalEntropyModel");
-                        // C05: symbol table rows == encoder view; view == owner
-                        let i: usize = any(); assume(i < n);
-                        let row = m.symbol_table().nth(i).unwrap();
-                        let (c, pr) = m.left_cumulative_and_probability(i).unwrap();
-                        assert!(row == (i, c, pr), "C05: symbol_table row differs from the encoder view");
-                        assert!(m.symbol_table().count() == n, "C05: symbol_table has a different number of rows than the support");
-                        assert!(m.as_view().left_cumulative_and_probability(i) == Some((c, pr)), "C05: view differs from its owner");
-                    }
+            let t = any_arr::<u8, LEN>();
+            let mut p = [0u8; 3]; let mut i = 0; while i < LEN { p[i] = t[i]; i += 1; }
+            let valid = table_valid(&p, LEN, INFER, P as u32);
+            match M::from_nonzero_fixed_point_probabilities(&t[..], INFER) {
+                Err(()) => assert!(!valid, "C19: valid fixed-point table refused (inferring the last probability must work at every precision)"),
+                Ok(m) => {
+                    assert!(valid, "C19: invalid fixed-point table accepted");
+                    let n = LEN + INFER as usize;
+                    assert!(m.support_size() == n, "C03: support size differs from the number of table entries");
+                    check_contiguous_model::<_, P>(&m, n);
+                    let i: usize = any(); assume(i < n);
+                    let mut it = m.symbol_table();
+                    let mut k = 0; let mut row = it.next(); while k < i { row = it.next(); k += 1; }
+                    let (c, pr) = m.left_cumulative_and_probability(i).unwrap();
+                    assert!(row == Some((i, c, pr)), "C05: symbol_table row differs from the encoder view");
+                    assert!(m.as_view().left_cumulative_and_probability(i) == Some((c, pr)), "C05: view differs from its owner");
                 }
-                cover!(valid && infer, "valid table with inferred last entry");
-                cover!(valid && !infer && len == 3, "valid full table");
             }
+            if LEN + INFER as usize >= 2 { cover!(valid, "a valid table exists"); }
         }
     };
 }
-fixed_table_harnesses!(table_u8_p8, 8);
-fixed_table_harnesses!(table_u8_p7, 7);
+pub mod table_u8_p8 {
+    use super::*;
+    fixed_table_harness!(len0_infer, 8, 0, true);
+    fixed_table_harness!(len1, 8, 1, false);
+    fixed_table_harness!(len1_infer, 8, 1, true);
+    fixed_table_harness!(len2, 8, 2, false);
+    fixed_table_harness!(len2_infer, 8, 2, true);
+    fixed_table_harness!(len3, 8, 3, false);
+}
+pub mod table_u8_p7 {
+    use super::*;
+    fixed_table_harness!(len0_infer, 7, 0, true);
+    fixed_table_harness!(len1, 7, 1, false);
+    fixed_table_harness!(len1_infer, 7, 1, true);
+    fixed_table_harness!(len2, 7, 2, false);
+    fixed_table_harness!(len2_infer, 7, 2, true);
+    fixed_table_harness!(len3, 7, 3, false);
+}
 
 /// C05 + C10 + C20: lookup decoder built from a contiguous model / from the same table returns,
 /// for EVERY quantile, the triple of the searched decoder; table indexing is in bounds.
@@ -218,7 +245,7 @@ pub fn fast_f32_n3_p8() {
     const P: usize = 8;
     let p: [f32; 3] = [any(), any(), any()];
     if let Ok(m) = ContiguousCategoricalEntropyModel::<u8, Vec<u8>, P>::from_floating_point_probabilities_fast(&p, None) {
-        check_contiguous_model!(m, 3, P, "from_floating_point_probabilities_fast");
+        check_contiguous_model::<_, P>(&m, 3);
     }
     cover!(p[0] > 0.0 && p[1] > 0.0 && p[2] > 0.0, "all positive");
 }
@@ -328,4 +355,32 @@ pub fn quantizer_symbol_table_i8_u8_p8() {
         assert!(row == (-64 + k, c, p), "C05: quantised symbol_table row differs from the encoder view");
         k += 1;
     }
+}
+
+/// C18: floating_point_probability(symbol) * 2^P == probability exactly (one exact power-of-two
+/// division), for every entry of every uniform model; 0.0 outside the support.
+#[cfg_attr(kani, kani::proof)]
+#[cfg_attr(kani, kani::unwind(4))]
+pub fn float_view_uniform_u16_p12() {
+    let range: usize = any(); assume(range >= 2 && range <= 4096);
+    let m = UniformModel::<u16, 12>::new(range);
+    let s: usize = any();
+    let f: f32 = m.floating_point_probability::<f32>(s);
+    match m.left_cumulative_and_probability(s) {
+        Some((_, p)) => assert!(f * 4096.0 == p.get() as f32, "C18: floating_point_probability is not probability / 2^P"),
+        None => assert!(f == 0.0, "C18: floating_point_probability of an impossible symbol must be 0"),
+    }
+}
+
+/// C09: a quantised model rejects EVERY symbol value outside its support, also when the symbol
+/// type is wider than the probability type (values that would alias after narrowing).
+#[cfg_attr(kani, kani::proof)]
+#[cfg_attr(kani, kani::unwind(4))]
+pub fn quantizer_reject_i16_u8_p8() {
+    let lo: i16 = any(); let hi: i16 = any();
+    assume(lo < hi && (hi as i32 - lo as i32) < 256);
+    let m = LeakyQuantizer::<f64, i16, u8, 8>::new(lo..=hi).quantize(ZeroCdf);
+    let s: i16 = any();
+    assert!(m.left_cumulative_and_probability(s).is_some() == (s >= lo && s <= hi), "C09: quantised model accepts exactly the symbols of its support (no aliasing after narrowing)");
+    cover!(s > hi && ((s as i32 - lo as i32) & 0xff) <= (hi as i32 - lo as i32), "out-of-support symbol that aliases an in-support one modulo 2^8");
 }
